@@ -78,7 +78,8 @@ def _ctx_run(params, values):
                 continue
             if name == "table" and ("|" in t or "\\" in t or "`" in t):
                 continue
-            toks, env = pipeline_nn(md, tpl.format(t))
+            pre_, post_ = tpl.split("{}")
+            toks, env = pipeline_nn(md, pre_ + t + post_)
             if idx >= len(toks) or toks[idx].type != "inline":
                 recs.append({"key": "context-shape", "ctx": name, "detail": str([x.type for x in toks])[:200]})
                 continue
@@ -236,13 +237,14 @@ def jobs(tier, seed):
     for name, frag in FRAGMENTS:
         if tier == "thorough":
             frag = [p for q in frag for p in ([q, H("b")] if q == H("a") else [q])]
-        elif name not in ("emph", "code", "link", "image", "escape", "html"):
-            continue  # the entity fragment (symbolic key into the 2 231-entry entity table) costs > 60 CPU-s per path: thorough only
+        elif name not in ("code", "escape", "plain"):
+            continue  # free characters next to emphasis delimiters, link syntax or entities cost 20-60 CPU-s per path (Unicode punctuation
+            # classes, reference lookups, the 2 231-entry entity table): those fragments are thorough-only;  the entity fragment (symbolic key into the 2 231-entry entity table) costs > 60 CPU-s per path: thorough only
         for other in ("heading", "list", "quote", "table"):
             jobs.append({"harness": "contexts", "params": {"cfg": JS, "fragment": frag, "spec": specnl, "name": name, "only": other}, "weight": 6,
                          "cpu_cap": 2400, "wall_cap": 3600, "path_cap": 120})
     for si, sc in enumerate(OPT_SCAFFOLDS):
-        if tier == "quick" and si in (3, 4, 5):
+        if tier == "quick" and si in (1, 3, 4, 5):
             continue
         if tier == "quick":
             fence = any(isinstance(p, str) and ("```" in p or "~~~" in p) for p in sc)
@@ -263,7 +265,7 @@ def thorough_extra(seed):
     _sharded(jobs, "single", {"cfg": JS, "scaffold": free_doc(3)}, weight=20, spec=spec)
     _sharded(jobs, "single", {"cfg": CM, "scaffold": free_doc(2)}, weight=8, spec=spec)
     for name, frag in FRAGMENTS:
-        if name in ("emph", "code", "link", "image", "escape", "html"):
+        if name in ("code", "escape", "plain"):
             continue
         for other in ("heading", "list", "quote", "table"):
             jobs.append({"harness": "contexts", "params": {"cfg": JS, "fragment": frag, "spec": specnl, "name": name, "only": other}, "weight": 6, "path_cap": 120})
